@@ -46,6 +46,35 @@ CHECKS["C05"] = dict(
     design="5/C05",
 )
 
+CHECKS["C10"] = dict(
+    engine="E3-vgomp-schedules",
+    technique="stateless deviation-bounded schedule exploration (CHESS-style) of the real C/OpenMP code under a controllable GOMP runtime; TSan race candidates promoted to scheduling points",
+    text="Every Python-reachable OpenMP entry point of the C back end is closed with a small driver and run on C code compiled from the working tree against vgomp, a GOMP-ABI runtime in which exactly one team member runs at a time: every schedule with at most d deviations from the canonical schedule (region start, barriers, each dynamic chunk hand-out, single, critical, thread exit; d=1 quick, 2 thorough; teams 2 and 3) is executed and its outputs compared bitwise with the team-of-one run, with deadlock and work-sharing invariants checked by the runtime; team sizes 1..16 under five canonical policies incl. end-to-end nr_rks/nr_uks; real libgomp at several thread counts x repetitions; and a separate free-running ThreadSanitizer pass whose reports in repository code become extra scheduling points explored the same way (a race is a violation iff some explored schedule changes an output).",
+    note="Synchronisation-granularity interleavings plus racing accesses, sequential consistency; nr_numint.c, pbc_tools.c and GPAW-only/caller-less routines are not driven (the evidence lists every OpenMP region function and whether it was entered).",
+    design="5/C10, 3.4, appendix A",
+)
+CHECKS["C14"] = dict(
+    engine="E2-history-bfs",
+    technique="explicit-state BFS over save/load format chains on the real classes and files, canonical state = dict-form/evaluation hash; enumerated negative alphabet",
+    text="From initial objects enumerating every registered feature-map class x parameter alphabet, the serialisable evaluator, eight whole-model compositions (MappedXC/MappedXC2, all spin modes, several evaluator kinds, two kernels) and RHF/UHF analyzers, every chain of save/load formats up to depth 3 (dict, FeatureList dict/YAML, evaluator dict/YAML, model YAML/joblib with inferred and explicit format, analyzer HDF5/dict) is executed on real files; after every cycle the type and the bit-identical evaluation (value and derivative) are checked and the dict form must be a fixed point. Every unknown code, missing key, unsupported extension/format and non-model file must raise.",
+    note="Files written by this version only; an object whose save routine raises counts as 'format unsupported for this object'.",
+    design="5/C14",
+)
+CHECKS["C19"] = dict(
+    engine="E2-history-bfs",
+    technique="explicit-state BFS over build/prune/reset/reconfigure histories of the real CiderGrids object, canonical state = settings + grid hash, invariants in every state",
+    text="For each molecule (repeated and unique elements) and lmax, histories of build(sort, non0tab), repeated prune_by_density_ at several thresholds, reset and setting changes are explored breadth first to depth 3 on one real CiderGrids object while the same history is applied to a pyscf Grids reference; in every distinct state the point/weight multisets must be bitwise equal, the index map injective and consistent with weights, owning atoms, radial shells and direction tables, padding weights zero, tables monotone/consistent, and the per-shell real spherical harmonics orthonormal under the shell quadrature up to the supported degree and zero above.",
+    note="Default radial scheme/Becke partition; lmax in {4,6,10}; full_lmax passed explicitly.",
+    design="5/C19",
+)
+CHECKS["C20"] = dict(
+    engine="E1-config-lattice+E4-vfftw",
+    technique="exhaustive plan enumeration with complete input bases against numpy.fft, on libfft_wrapper built against an executable FFTW model with address checking (model validated against numpy)",
+    text="Every plan over dims of rank 1-3 from {1..4} (thorough {1..5}) plus rank-4 tuples x forward/backward x c2c/r2c x in/out of place x batch first/last x 1-3 transforms is built through the real FFTWrapper; plans with <=64 inputs are probed with every unit vector (c2r: images of all real unit vectors), others with a dense vector and edge unit vectors; outputs must equal numpy's unnormalised DFT, shapes as advertised, forward.backward = N.identity, wrong shapes raise, equivalent input representations (Fortran order, other dtypes) give the same transform, and the FFTW model's address checker and red zones stay silent. The model is validated against numpy on explicit-embed/stride plans and shown to fire on an undersized buffer.",
+    note="FFTW replaced by vfftw (documented semantics of the advanced interface); the real FFTW/MKL binaries are not in the image.",
+    design="5/C20, 3.5, appendix B",
+)
+
 NOT_YET = {}
 
 
